@@ -77,9 +77,10 @@ def check_split_combine(facts, rep):
         rep.violation('E8.F8-split-recombine', inst, 'SpMat::divide4: ' + '; '.join(problems), where=dv.where())
     else:
         rep.ok('E8.F8-split-recombine', inst, 'a:(i,j) b:(i,j-l) c:(i-k,j) d:(i-k,j-l)')
-    # combine_blocks
+    # combine_blocks: the placement table (block, row offset, column offset) and the shift applied to every entry
     offs = None
     blocks = None
+    adds_ok = False
     for p in SymEx(cb, max_paths=20000).run():
         for e in p.calls():
             if e.name.split('::')[-1] == 'zip' and len(e.args) == 2:
@@ -89,7 +90,6 @@ def check_split_combine(facts, rep):
                     offs = [tuple(sk(y) for y in x[1]) if x[0] == 'tuple' else None for x in a1[2]]
     inst = 'SpMat::combine_blocks|adds (0,0),(0,L),(K,0),(K,L) with (K,L) = shape of block 0'
     K, L = 'shape(arg1[0]).0', 'shape(arg1[0]).1'
-    adds_ok = False
     for k, b in facts.bodies.items():
         if k.startswith(cb.defp + '::{closure'):
             for p in SymEx(b).run():
@@ -98,12 +98,31 @@ def check_split_combine(facts, rep):
                     s0, s1 = sk(r[1][0]), sk(r[1][1])
                     if s0.startswith('AddWithOverflow(') and s1.startswith('AddWithOverflow(') and '^di' in s0 and '^dj' in s1:
                         adds_ok = True
+    if blocks is None:
+        # the same table as an array of (block, di, dj) triples walked by nested loops that push (i + di, j + dj, r)
+        hp = SymEx(cb, havoc_loops=True, max_paths=20000).run()
+        for p in hp:
+            for e in p.calls():
+                if e.name.split('::')[-1] == 'into_iter' and e.args:
+                    a0 = strip(e.args[0])
+                    if a0[0] == 'agg' and a0[1] == 'array' and all(strip(x)[0] == 'tuple' and len(strip(x)[1]) == 3 for x in a0[2]):
+                        blocks = [sk(strip(x)[1][0]) for x in a0[2]]
+                        offs = [(sk(strip(x)[1][1]), sk(strip(x)[1][2])) for x in a0[2]]
+                if e.name.split('::')[-1] == 'push' and len(e.args) == 2 and strip(e.args[1])[0] == 'tuple' and len(strip(e.args[1])[1]) == 3:
+                    t0, t1 = [re.sub(r'&mut _\d+', 'IT', sk(x)) for x in strip(e.args[1])[1][:2]]
+                    m0 = re.match(r'AddWithOverflow\(next\(IT\)\.Some\.0\.0, next\(IT\)\.Some\.0\.1\)\.0$', t0)
+                    m1 = re.match(r'AddWithOverflow\(next\(IT\)\.Some\.0\.1, next\(IT\)\.Some\.0\.2\)\.0$', t1)
+                    if m0 and m1:
+                        adds_ok = True
+    vocab = {'0', K, L}
     if blocks == ['arg1[0]', 'arg1[1]', 'arg1[2]', 'arg1[3]'] and offs == [('0', '0'), ('0', L), (K, '0'), (K, L)] and adds_ok:
         rep.ok('E8.F8-split-recombine', inst, 'offsets %s' % offs)
-    else:
+    elif blocks is not None and offs is not None and adds_ok and sorted(blocks) == ['arg1[0]', 'arg1[1]', 'arg1[2]', 'arg1[3]'] and all(o is not None and set(o) <= vocab for o in offs):
         rep.violation('E8.F8-split-recombine', inst,
-                      'SpMat::combine_blocks places blocks %s at offsets %s (entry shift by (di,dj): %s); divide4 subtracts (0,0),(0,l),(k,0),(k,l): split followed by recombination is no longer the identity' % (blocks, offs, adds_ok),
+                      'SpMat::combine_blocks places blocks %s at offsets %s; divide4 subtracts (0,0),(0,l),(k,0),(k,l): split followed by recombination is no longer the identity' % (blocks, offs),
                       where=cb.where())
+    else:
+        rep.indet('E8.F8: combine_blocks outside the recognised fragment: blocks %s at offsets %s (entry shift by (di, dj): %s)' % (blocks, offs, adds_ok))
 
 
 def check_trans_order(facts, rep):
